@@ -38,24 +38,42 @@ def _catch(ctx, fn):
 
 
 # ---------------------------------------------------------------------------------------------------
-class ForeverLoop(LoopContract):
-    """``while True`` - the invariant is 'nothing outstanding': checked by the body's own bookkeeping"""
+class ItemsLoop(LoopContract):
+    """The worker's loop, whatever its shape.  The queue protocol is a ghost automaton kept by the unit's queue / process_item stand-ins:
+         IDLE --get--> HOLD(x);   HOLD(x), x is not DONE --process_item(x)--> USED(x);   USED(x) | HOLD(DONE) --task_done--> IDLE
+    (anything else is a failed obligation where it happens).  Two candidate invariants for the loop head (disjunctive proof attempt):
+      A  nothing outstanding (state IDLE):            ``while True: item = get(); ...``
+      B  one item in hand, not yet looked at (HOLD):  ``item = get(); while item is not DONE: ...; item = get()``
+    Every iteration consumes exactly one get (progress) and ends in the head state again."""
 
     def __init__(self, state):
         self.state = state
+        self.head = None
 
     def establish(self, ctx, it, locs):
-        ctx.check("loop/establish:no-item-outstanding", bool(self.state["gets"] == self.state["dones"]))
+        st = self.state
+        self.head = "IDLE" if ctx.choose(2, "alt:worker-loop-invariant") == 0 else "HOLD"
+        ctx.check("loop/establish:no-item-outstanding" if self.head == "IDLE" else "loop/establish:exactly-the-item-just-fetched-is-in-hand",
+                  bool(st["state"] == self.head))
+        if st["state"] != self.head:
+            ctx.end_path("this candidate invariant does not hold at loop entry")     # the other candidate is tried on its own paths
 
     def havoc(self, ctx, it, locs):
-        self.state.update(gets=0, dones=0, processed=[], item=None)
+        st = self.state
+        st.update(gets=0, dones=0, processed=[], state=self.head, item=None)
+        if self.head == "HOLD":
+            st["item"] = DONE if ctx.choose(2, "get") == 1 else object()
+            # the local that carries the item in hand: the one that held it at loop entry
+            names = [k for k, v in locs.items() if v is self.entry_item] if getattr(self, "entry_item", None) is not None else []
+            return {n: st["item"] for n in names}
         return {}
 
     def preserve(self, ctx, locs):
         st = self.state
         ctx.check("iteration:exactly-one-get", bool(st["gets"] == 1))
         ctx.check("iteration:task_done-exactly-once", bool(st["dones"] == 1))
-        ctx.check("iteration:not-DONE=>process_item(item)-exactly-once", bool(st["item"] is not DONE and st["processed"] == [st["item"]]))
+        ctx.check("iteration:ends-in-the-loop-head-state", bool(st["state"] == self.head))
+        ctx.check("iteration:not-DONE=>process_item(item)-exactly-once", bool(len(st["processed"]) == 1 and st["processed"][0] is not DONE))
 
 
 DONE = object()
@@ -68,35 +86,46 @@ class ItemBoom(Exception):
 @unit("coordinator.process_items", props=["C07", "C01", "C04"], functions=[(REL, "worker_thread.<locals>.process_items")],
       assumptions=["T3 queue.get blocks until an item is available and hands it to exactly one caller"], min_obligations=6)
 def process_items_unit(ctx):
-    st = dict(gets=0, dones=0, processed=[], item=None)
+    st = dict(gets=0, dones=0, processed=[], item=None, state="IDLE", finished=False)
 
     class Q:
         def get(self):
+            ctx.check("get:only-when-nothing-is-outstanding", bool(st["state"] == "IDLE"))
             st["gets"] += 1
             st["item"] = DONE if ctx.choose(2, "get") == 1 else object()
+            st["state"] = "HOLD"
+            if loop.head is None:
+                loop.entry_item = st["item"]
             return st["item"]
 
         def task_done(self):
+            ok = st["state"] == "USED" or (st["state"] == "HOLD" and st["item"] is DONE)
+            ctx.check("task_done:exactly-once-per-get,after-the-item-was-processed(or-was-DONE)", bool(ok))
             st["dones"] += 1
+            st["finished"] = st["item"] is DONE
+            st["state"] = "IDLE"
 
     def process_item(item):
-        ctx.check("process_item:only-after-get-and-before-task_done", bool(st["gets"] == 1 and st["dones"] == 0))
+        ctx.check("process_item:only-after-get-and-before-task_done", bool(st["state"] == "HOLD" and item is st["item"] and item is not DONE))
         st["processed"].append(item)
+        st["state"] = "USED"
         if ctx.choose(2, "process_item") == 1:
             raise ItemBoom()
 
-    vc = VC(ctx, loops={"forever": ForeverLoop(st)})
+    loop = ItemsLoop(st)
+    vc = VC(ctx, loops={})
+    vc.resolve_loop = lambda key, it: loop
     env = {"__vc": vc, "queue": Q(), "process_item": process_item, "DONE": DONE}
-    f = get(REL, "worker_thread.<locals>.process_items", cut_loops={0: "forever"}).compile_into(env)
+    f = get(REL, "worker_thread.<locals>.process_items", cut_loops="auto").compile_into(env)
     from ujvc.units import call_by_name
 
     kind, val = _catch(ctx, lambda: call_by_name(f, queue=env["queue"], process_item=process_item))
-    # reached only when the iteration left the loop: the DONE return or an escaping exception
-    ctx.check("exit:task_done-exactly-once-for-the-last-get", bool(st["gets"] == 1 and st["dones"] == 1))
+    # reached only when the function was left: after DONE, or by an escaping exception
+    ctx.check("exit:task_done-exactly-once-for-the-last-get", bool(st["state"] == "IDLE" and st["dones"] >= 1))
     if kind == "ret":
-        ctx.check("returns-only-on-DONE", bool(st["item"] is DONE and st["processed"] == [] and val is None))
+        ctx.check("returns-only-on-DONE", bool(st["item"] is DONE and st["finished"] and val is None))
     else:
-        ctx.check("raises-only-what-process_item-raised", bool(isinstance(val, ItemBoom) and st["processed"] == [st["item"]]))
+        ctx.check("raises-only-what-process_item-raised", bool(isinstance(val, ItemBoom) and st["processed"][-1:] == [st["item"]]))
     return kind
 
 
@@ -475,8 +504,7 @@ def coordinator_unit(ctx):
         ctx.check("valid=>max_errors>=0", Kt >= 0, props=["C10"])
     cq = [e for e in log if e[0] == "create_queue"]
     ctx.check("create_queue(graph,sources-of-prepare_nodes,scheduler)-once", bool(len(cq) == 1 and cq[0][1] is GRAPH and cq[0][2] is SOURCES and cq[0][3] is SCHED))
-    ok_pool = (pool_args.get("queue") is QUEUE and callable(pool_args.get("process_item"))
-               and getattr(pool_args.get("process_item"), "__name__", "") == "process_node")
+    ok_pool = pool_args.get("queue") is QUEUE and callable(pool_args.get("process_item"))      # what it does with an item: the engine units
     ctx.check("worker_pool(queue,process_node,..)", bool(ok_pool))
     pw = pool_args.get("worker_count")
     if wc_none:
